@@ -32,12 +32,17 @@ LEAN_MODULES = ['MlModel.Properties.C18']
 TRUSTED = [
     'modelled, not verified: CPython dict/list/tuple semantics (insertion order, negative indices, copy.copy), '
     'structural pattern matching in set/__getitem__/_default_tree, Mapping mixin items()/keys() — written out in Model/Tree.lean',
-    'ndarrays are opaque leaves in the Lean model: operations whose path indexes INTO an ndarray are skipped by the model; '
-    'the real code still runs the copying ones and the ORACLE alone judges them (original arrays unchanged at every depth, '
-    'get-after-set of an element, frame) — for those operations there is no theorem and no correspondence; key_paths= views are not modelled',
+    'ndarrays are heap objects of the Lean model (an `nd` cell = one array object = a C-contiguous window of a `buf` cell that '
+    'several array objects may share): reads and sets (copying and in place) whose path indexes INTO an ndarray are in the model and '
+    'in the correspondence, which compares object identity, BUFFER identity (owner of the memory: end of the .base chain), window '
+    'offset, shape and elements of every array in every result; modelled-not-verified numpy facts: basic integer indexing returns a view '
+    '(ndim > 1) or a scalar, copy.copy(arr) owns a new buffer, assignment broadcasts (surplus leading 1-dims dropped, lists converted with '
+    'at most ndim(window) dimensions), int64 only; a tuple-of-ints key (numpy multi-dimensional index) is NOT modelled: the model skips the '
+    'op, the real code still runs the copying ones and the ORACLE alone judges them; key_paths= views are not modelled',
 ]
 ASSUMPTIONS = [
-    'leaves are int/str/None/1-D int ndarray; dict keys are str/int/Literal objects; the view is built without key_paths',
+    'leaves are int/str/None; ndarrays are int64, 1-D or 2-D, C-contiguous (owning arrays and views of them); dict keys are '
+    'str/int/Literal objects; the view is built without key_paths',
     'no cyclic input data (in-place sets never store an ancestor); ndarray elements are assigned ints only where the get/set law is claimed',
 ]
 RULE = ('heaps of <= ~25 cells (trees of depth <= 4 of dict/list/tuple with int/str/None/ndarray leaves, ~15% aliased '
@@ -46,8 +51,11 @@ RULE = ('heaps of <= ~25 cells (trees of depth <= 4 of dict/list/tuple with int/
         'existing, fresh (dict key, append, append+deeper), negative / out-of-range / wrongly-typed, with SELF, SKIP '
         'and Literal at head or inside, ~12% malformed (misaligned multi-key values, empty keys with values, strict views); '
         'small-exhaustive part: every path of length <= 2 over a fixed key alphabet on 6 fixed trees; '
-        'plus two families: (a) trees with 1-D/2-D ndarray nodes (also as view root, also shared) and copying ops whose paths index '
-        'into them (existing / negative / out-of-range index, tuple-of-ints key) — oracle only; (b) iterate a view, derive a view by '
+        'plus two families: (a) trees with 1-D/2-D ndarray nodes (also as view root, also the same object twice, also VIEWS sharing a '
+        'buffer with another array inside or outside the tree) and copying AND in-place sets / updates / reads / items / apply whose paths '
+        'index into them (existing / negative / out-of-range index, key == len (AssertionError), str key, SELF / SKIP below the array, too '
+        'deep; values: int, arrays of equal / broadcastable / incompatible shape incl. a view of the same buffer, flat / nested / ragged int '
+        'lists, str, None, dict, NullMap) — model and code compared incl. buffer sharing; tuple-of-ints keys oracle only; (b) iterate a view, derive a view by '
         'a copying set/update that changes the set of leaf paths (fresh key, append, leaf->subtree, subtree->leaf), iterate the '
         'derived view object itself, chains of these. Along a sequence the SAME view objects are used (the view an op returned is '
         'the one later ops read) and the items oracle is evaluated on every source and derived view object; '
@@ -103,8 +111,12 @@ class World:
       o = int(c['v'])
     elif t == 'str':
       o = str(c['v'])
-    elif t in ('arr', 'arr2'):       # 1-D / 2-D integer ndarray
+    elif t in ('arr', 'arr2'):       # 1-D / 2-D integer ndarray owning its buffer
       o = np.array(c['v'], dtype=np.int64)
+    elif t == 'view':                # another array object on the buffer of cell `of` (window off, shape)
+      own = self.obj(c['of'])
+      size = int(np.prod(c['shape'])) if c['shape'] else 1
+      o = own.reshape(-1)[c['off']:c['off'] + size].reshape(c['shape'])
     elif t == 'none':
       o = None
     elif t == 'null':
@@ -189,8 +201,14 @@ class World:
     if isinstance(o, T.NullMap):
       return {'t': 'null', 'r': id(o)}
     if isinstance(o, np.ndarray):
-      # opaque leaf for the model: the flattened content (the model request flattens 2-D arrays the same way)
-      return {'t': 'leaf', 'r': id(o), 'v': {'arr': [int(x) for x in o.reshape(-1).tolist()]} if o.ndim >= 1 else {'?': repr(o)}}
+      if o.ndim == 0 or o.dtype != np.int64 or not o.flags['C_CONTIGUOUS']:
+        return {'t': 'leaf', 'v': {'?': f'ndarray{o.shape}{o.dtype}'}}
+      own = owner(o)
+      off = (o.__array_interface__['data'][0] - own.__array_interface__['data'][0]) // 8 if o.size else 0
+      _KEEP.append((own, o))      # alive until the case ends: ids are never reused
+      # the array OBJECT, the BUFFER it lives in (identity of the owning array), its window and its elements
+      return {'t': 'nd', 'r': id(o), 'b': ('buf', id(own)), 'off': int(off) if o.size else None,
+              'shape': [int(x) for x in o.shape], 'v': [int(x) for x in o.reshape(-1).tolist()]}
     if o is None:
       return {'t': 'leaf', 'v': 'none'}
     if isinstance(o, bool):
@@ -200,6 +218,13 @@ class World:
     if isinstance(o, str):
       return {'t': 'leaf', 'v': {'str': o}}
     return {'t': 'leaf', 'v': {'?': type(o).__name__}}
+
+
+def owner(a):
+  """The array that owns the memory `a` shows (end of the `.base` chain)."""
+  while isinstance(a.base, np.ndarray):
+    a = a.base
+  return a
 
 
 class Labels:
@@ -226,10 +251,17 @@ class Labels:
       return out
     if t == 'null':
       return {'t': t, 'id': self.of(d['r'])}
+    if t == 'nd':
+      b = d['b']
+      if isinstance(b, list):
+        b = tuple(b)
+      size = 1
+      for x in d['shape']:
+        size *= x
+      return {'t': t, 'id': self.of(d['r']), 'buf': self.of(b), 'off': d['off'] if size else None,
+              'shape': d['shape'], 'v': d['v']}
     if t == 'leaf':
       v = d['v']
-      if isinstance(v, dict) and 'arr' in v:
-        return {'t': t, 'v': v, 'id': self.of(d['r'])}
       return {'t': t, 'v': v}                    # scalars: CPython interning makes identity meaningless
     return d
 
@@ -511,7 +543,9 @@ def run_impl(case):
   T = _tree()
   w = World(case)
   labels = Labels({id(w.objs[r]): f'cell#{r}' for r, c in enumerate(case['heap'])
-                   if c['t'] in ('dict', 'list', 'tuple', 'arr', 'arr2', 'null') and not (c['t'] == 'tuple' and not c['rs'])})
+                   if c['t'] in ('dict', 'list', 'tuple', 'arr', 'arr2', 'view', 'null') and not (c['t'] == 'tuple' and not c['rs'])})
+  for r, b in buffer_cells(case['heap']).items():      # the buffer of an owning array = the model's appended cell
+    labels.tab[('buf', id(w.objs[r]))] = f'cell#{b}'
   known = {}            # id -> object: every identity-carrying object seen so far (kept alive)
   for r, o in w.objs.items():
     if id(o) in labels.tab:
@@ -554,16 +588,10 @@ def run_impl(case):
         return
       value = w.objs[op['value']] if 'value' in op else None
       in_place = bool(op.get('in_place', False))
-      skip = False
-      if kind in ('get', 'getd', 'set'):
-        ps = keys_paths(op['keys'])
-        skip = any(touches_arr(w, root, p, kind == 'set') for p in ps) or (kind == 'set' and len(ps) > 1 and has_arr(value))
-      elif kind == 'update':
-        skip = any(touches_arr(w, root, p, True) for p, _ in op['pairs']) or \
-            (len(op['pairs']) > 1 and any(has_arr(w.objs[v]) for _, v in op['pairs']))
-      # Indexing INSIDE an ndarray is outside the Lean model (arrays are opaque leaves there): the model
-      # skips the op.  The real code still runs it — copying ops only — and the oracle below judges it
-      # (no mutation of the original arrays, get-after-set, frame); the observation stays 'skipped'.
+      # A tuple-of-ints key (numpy multi-dimensional index) is outside the Lean model: the model skips the
+      # op.  The real code still runs it — copying ops only — and the oracle below judges it (no mutation of
+      # the original arrays, get-after-set, frame); the observation stays 'skipped'.
+      skip = unmodelled(op)
       oracle_only = skip
       if skip and (in_place or kind not in ('get', 'getd', 'set', 'update')):
         ops_obs.append({'skipped': True})
@@ -659,7 +687,11 @@ def run_impl(case):
           law(i, 'the viewed data differs from its deep copy taken before the operation')
       else:
         allowed = _path_objects(T, w, root, op, snap_deep)
-        bad = [k for k in changed if k not in allowed]
+        # an array that shares memory with an array on the key path shows the written element too: that is
+        # what aliasing means, it is not a second write
+        on_path_arrays = [before_nodes[k] for k in allowed if k in before_nodes and isinstance(before_nodes[k], np.ndarray)]
+        bad = [k for k in changed if k not in allowed and not (
+            isinstance(before_nodes[k], np.ndarray) and any(np.shares_memory(before_nodes[k], a) for a in on_path_arrays))]
         if bad:
           law(i, 'in-place set changed an object that is not on the key path')
       if oracle_only:          # judged by the laws above; not part of the correspondence
@@ -852,27 +884,56 @@ def _set_laws(T, w, law, i, op, view, nv, keys, value):
 
 # ----------------------------------------------------------------------------- model side
 
-def _for_model(x):
-  """The model keeps ndarrays opaque: a 2-D array is sent as its flattened content, a tuple-of-ints key
-  (only ever generated directly at an array) as the index of its first component — both only matter for the
-  model's decision to skip the operation, which is taken at the array before the key is used."""
-  if isinstance(x, dict):
-    if x.get('t') == 'arr2':
-      return {'t': 'arr', 'v': [e for row in x['v'] for e in row]}
-    if set(x) == {'t'} and isinstance(x['t'], list):
-      return {'x': x['t'][0]}
-    return {k: _for_model(v) for k, v in x.items()}
-  if isinstance(x, list):
-    return [_for_model(v) for v in x]
-  return x
+def buffer_cells(heap):
+  """Model cell index of the buffer of every owning array cell: buffers are appended after the case's cells."""
+  out, n = {}, len(heap)
+  for r, c in enumerate(heap):
+    if c['t'] in ('arr', 'arr2'):
+      out[r] = n
+      n += 1
+  return out
+
+
+def unmodelled(op):
+  """Tuple-of-ints keys (numpy multi-dimensional indices) are not in the Lean model."""
+  def tk(p):
+    return any(isinstance(k, dict) and 't' in k for k in p)
+  if op['op'] in ('get', 'getd', 'set', 'normalize') and op.get('keys') != 'empty':
+    return any(tk(p) for p in keys_paths(op['keys']))
+  if op['op'] == 'update':
+    return any(tk(p) for p, _ in op['pairs'])
+  return False
+
+
+def _model_heap(heap):
+  bufs = buffer_cells(heap)
+  cells, extra = [], []
+  for r, c in enumerate(heap):
+    if c['t'] == 'arr':
+      cells.append({'t': 'nd', 'b': bufs[r], 'off': 0, 'shape': [len(c['v'])]})
+      extra.append({'t': 'buf', 'v': list(c['v'])})
+    elif c['t'] == 'arr2':
+      cells.append({'t': 'nd', 'b': bufs[r], 'off': 0, 'shape': [len(c['v']), len(c['v'][0]) if c['v'] else 0]})
+      extra.append({'t': 'buf', 'v': [e for row in c['v'] for e in row]})
+    elif c['t'] == 'view':
+      cells.append({'t': 'nd', 'b': bufs[c['of']], 'off': c['off'], 'shape': list(c['shape'])})
+    else:
+      cells.append(c)
+  return cells + extra
+
+
+def _model_op(op):
+  if unmodelled(op):
+    return {'op': op['op'], 'skip': True, 'root': op.get('root', 0)}
+  return op
 
 
 def model_requests(case):
-  return [dict(model='tree', strict=case['strict'], heap=_for_model(case['heap']), ops=_for_model(case['ops']))]
+  return [dict(model='tree', strict=case['strict'], heap=_model_heap(case['heap']), ops=[_model_op(o) for o in case['ops']])]
 
 
 def model_obs(case, resps):
-  n0 = len(case['heap'])
+  n0 = len(case['heap']) + len(buffer_cells(case['heap']))
   labels = Labels({r: f'cell#{r}' for r in range(n0)})
   out = []
   for o in resps[0]['ops']:
@@ -911,7 +972,11 @@ def extra(ctx):
       ctx.count(k, sub, n)
   need = {'outcome': ['set:ok', 'set:KeyError', 'set:TypeError', 'set:ValueError', 'get:ok', 'get:KeyError',
                       'get:IndexError', 'get:TypeError', 'items:ok', 'apply:ok', 'update:ok', 'inplace:ok'],
-          'sharing': ['result shares cells with input', 'result has fresh cells']}
+          'sharing': ['result shares cells with input', 'result has fresh cells'],
+          'ndarray': ['set into an array: ok', 'set into an array: KeyError', 'set into an array: AssertionError',
+                      'inplace into an array: ok', 'get into an array: ok', 'get into an array: IndexError',
+                      'read returned a new view of an input buffer', 'copying set returned a new array on a new buffer',
+                      'in-place set kept the array object', 'in-place write seen through >= 2 array objects (aliases)']}
   missing = [f'{k}/{x}' for k, xs in need.items() for x in xs if not _STATS.get(k, {}).get(x)]
   if missing:
     ctx.notes.append('coverage holes: ' + ', '.join(missing))
@@ -927,9 +992,71 @@ def _walk_ids(d, acc):
       _walk_ids(v, acc)
 
 
+def _walk_nd(d, acc):
+  if isinstance(d, dict):
+    if d.get('t') == 'nd':
+      acc.append(d)
+    for v in d.get('rs', []):
+      _walk_nd(v, acc)
+    for _, v in d.get('es', []):
+      _walk_nd(v, acc)
+
+
+def _nd_stats(case, op, o, kind):
+  """Which ndarray situations the correspondence covered (a path that indexes into an array)."""
+  def into_arr(p):
+    cur, heap = op.get('root'), case['heap']
+    if not isinstance(cur, int):
+      return None
+    for k in p:
+      c = heap[cur]
+      if c['t'] in ('arr', 'arr2', 'view'):
+        return True
+      nxt = None
+      if c['t'] == 'dict' and isinstance(k, dict):
+        for dk, v in c['es']:
+          if dk == k or ('i' in dk and dk.get('i') == k.get('x')):
+            nxt = v
+      elif c['t'] in ('list', 'tuple') and isinstance(k, dict) and ('x' in k or 'i' in k):
+        i = k.get('x', k.get('i'))
+        if -len(c['rs']) <= i < len(c['rs']):
+          nxt = c['rs'][i]
+      if nxt is None:
+        return False
+      cur = nxt
+    return False
+  if kind in ('set', 'inplace', 'get', 'getd') and op.get('keys') != 'empty':
+    ps = keys_paths(op['keys'])
+  elif kind == 'update':
+    ps = [p for p, _ in op['pairs']]
+  else:
+    return
+  if not any(into_arr(p) for p in ps):
+    return
+  _stat('ndarray', f"{kind} into an array: {o.get('err') or 'ok'}")
+  acc = []
+  for f in ('res', 'one'):
+    if f in o:
+      _walk_nd(o[f], acc)
+  for x in o.get('many', []):
+    _walk_nd(x, acc)
+  for d in acc:
+    fresh_obj, fresh_buf = d['id'].startswith('fresh#'), d['buf'].startswith('fresh#')
+    if kind in ('get', 'getd') and fresh_obj and not fresh_buf:
+      _stat('ndarray', 'read returned a new view of an input buffer')
+    if kind in ('set', 'update') and fresh_obj and fresh_buf:
+      _stat('ndarray', 'copying set returned a new array on a new buffer')
+    if kind == 'inplace' and not fresh_obj:
+      _stat('ndarray', 'in-place set kept the array object')
+  if kind == 'inplace' and len(o.get('changed') or []) >= 2:
+    _stat('ndarray', 'in-place write seen through >= 2 array objects (aliases)')
+
+
 def nontrivial(case, obs):
   for op, o in zip(case['ops'], obs['ops']):
     kind = 'inplace' if op.get('in_place') else op['op']
+    if not o.get('skipped'):
+      _nd_stats(case, op, o, kind)
     if o.get('skipped'):
       _stat('outcome', kind + ':skipped')
       continue
@@ -1249,15 +1376,24 @@ def exhaustive_cases():
 
 
 def make_arr_case(rng):
-  """Trees with ndarray nodes (1-D and 2-D) and COPYING operations whose paths index into the arrays: existing,
-  negative and out-of-range indices, a tuple-of-ints key on a 2-D array, the array as view root.  The Lean
-  model skips these operations (arrays are opaque there); the oracle judges them on the real objects."""
+  """Trees with ndarray nodes (1-D, 2-D, views sharing a buffer with another array of the case) and operations
+  whose paths index into the arrays — copying AND in-place sets, updates, reads: existing, negative and
+  out-of-range indices, `key == len(arr)` (AssertionError), str keys, SELF/SKIP below an array, too deep
+  paths, the array as view root; values: ints, other arrays (same shape, broadcastable, not broadcastable,
+  a view of the SAME buffer), flat / nested int lists and tuples, str, None, dict, NullMap.  Both sides
+  report object identity, buffer identity, window and elements of every array.  A tuple-of-ints key on a 2-D
+  array is outside the model: oracle only."""
   g = Gen(rng)
-  a1 = g.add({'t': 'arr', 'v': rng.choice([[1, 2, 3], [10, 20], [7]])})
-  a2 = g.add({'t': 'arr2', 'v': rng.choice([[[0, 1, 2], [3, 4, 5]], [[1, 2], [3, 4], [5, 6]]])})
+  a1 = g.add({'t': 'arr', 'v': rng.choice([[1, 2, 3], [10, 20], [7], [0]])})
+  a2 = g.add({'t': 'arr2', 'v': rng.choice([[[0, 1, 2], [3, 4, 5]], [[1, 2], [3, 4], [5, 6]], [[8], [9]]])})
   a3 = g.add({'t': 'arr', 'v': [4, 5, 6, 7]})
+  n2, m2 = len(g.cells[a2]['v']), len(g.cells[a2]['v'][0])
+  # views: a row of a2 (shares a2's buffer), a window of a3, a 2-D reshaped window of a3
+  v_row = g.add({'t': 'view', 'of': a2, 'off': m2 * rng.randrange(n2), 'shape': [m2]})
+  v_win = g.add({'t': 'view', 'of': a3, 'off': rng.choice([0, 1, 2]), 'shape': [2]})
+  v_22 = g.add({'t': 'view', 'of': a3, 'off': 0, 'shape': [2, 2]})
   leaf = g.add({'t': 'int', 'v': 3})
-  shape = rng.randrange(5)
+  shape = rng.randrange(7)
   if shape == 0:      # {'model': {'scores': a1}, 'rows': [a2], 'b': 3}
     inner = g.add({'t': 'dict', 'es': [[{'s': 'scores'}, a1]]})
     rows = g.add({'t': 'list', 'rs': [a2]})
@@ -1268,49 +1404,95 @@ def make_arr_case(rng):
     root = g.add({'t': 'list', 'rs': [a1, tup, a3]})
     arrs = [([{'x': 0}], a1), ([{'x': 1}, {'x': 0}], a2), ([{'x': 2}], a3)]
   elif shape == 2:    # the array is the root of the view
-    root = rng.choice([a1, a2])
+    root = rng.choice([a1, a2, v_22, v_row])
     arrs = [([], root)]
   elif shape == 3:    # the same array object at two places
     root = g.add({'t': 'dict', 'es': [[{'s': 'a'}, a1], [{'s': 'b'}, a1], [{'i': 0}, a2]]})
     arrs = [([{'s': 'a'}], a1), ([{'s': 'b'}], a1), ([{'i': 0}], a2)]
+  elif shape == 4:    # an array and a view of its buffer in the same tree
+    root = g.add({'t': 'dict', 'es': [[{'s': 'a'}, a2], [{'s': 'row'}, v_row], [{'s': 'n'}, leaf]]})
+    arrs = [([{'s': 'a'}], a2), ([{'s': 'row'}], v_row)]
+  elif shape == 5:    # two overlapping views of a3 (a3 itself outside the tree)
+    root = g.add({'t': 'list', 'rs': [v_win, v_22, a1]})
+    arrs = [([{'x': 0}], v_win), ([{'x': 1}], v_22), ([{'x': 2}], a1)]
   else:               # ({'a': a3},)
     d = g.add({'t': 'dict', 'es': [[{'s': 'a'}, a3], [{'s': 'n'}, leaf]]})
     root = g.add({'t': 'tuple', 'rs': [d]})
     arrs = [([{'x': 0}, {'s': 'a'}], a3)]
-  vals = [g.add({'t': 'int', 'v': v}) for v in (99, -7, 0)]
-  other = [g.add({'t': 'str', 'v': 'x'}), g.add({'t': 'list', 'rs': [vals[0]]}), g.add({'t': 'none'})]
+  ints = [g.add({'t': 'int', 'v': v}) for v in (99, -7, 0)]
+  i7, i8 = g.add({'t': 'int', 'v': 7}), g.add({'t': 'int', 'v': 8})
+  avals = [g.add({'t': 'arr', 'v': [7, 8, 9]}), g.add({'t': 'arr', 'v': [7, 8]}), g.add({'t': 'arr', 'v': [5]}),
+           g.add({'t': 'arr2', 'v': [[7, 8, 9]]}), g.add({'t': 'arr2', 'v': [[7], [8]]}), g.add({'t': 'arr2', 'v': [[1, 2], [3, 4]]}),
+           v_row, v_win, a1]
+  lvals = [g.add({'t': 'list', 'rs': [i7, i8]}), g.add({'t': 'tuple', 'rs': [i7, i8, i7]}), g.add({'t': 'list', 'rs': [i7]}),
+           g.add({'t': 'list', 'rs': []})]
+  lvals.append(g.add({'t': 'list', 'rs': [lvals[0], lvals[0]]}))          # nested, rectangular
+  lvals.append(g.add({'t': 'list', 'rs': [i7, lvals[2]]}))               # ragged
+  other = [g.add({'t': 'str', 'v': 'x'}), g.add({'t': 'none'}), g.add({'t': 'dict', 'es': [[{'s': 'k'}, i7]]}),
+           g.add({'t': 'null'}), g.add({'t': 'list', 'rs': [g.add({'t': 'str', 'v': 'x'})]})]
 
-  def into(pre, cell):
+  def shape_of(cell):
     c = g.cells[cell]
     if c['t'] == 'arr':
-      n = len(c['v'])
-      tail = rng.choice([[{'x': rng.randrange(n)}], [{'x': -1}], [{'i': rng.randrange(n)}], [{'x': n}], [{'x': -n - 1}],
-                         [{'x': 0}, {'x': 0}], [{'s': 'a'}]] if rng.random() < 0.35 else [[{'x': rng.randrange(n)}], [{'x': -1}]])
+      return [len(c['v'])]
+    if c['t'] == 'arr2':
+      return [len(c['v']), len(c['v'][0])]
+    return list(c['shape'])
+
+  def into(pre, cell):
+    sh = shape_of(cell)
+    n = sh[0]
+    if len(sh) == 1:
+      ok = [[{'x': rng.randrange(n)}], [{'x': -1}], [{'i': rng.randrange(n)}]]
+      odd = [[{'x': n}], [{'x': -n - 1}], [{'x': n + 1}], [{'x': 0}, {'x': 0}], [{'s': 'a'}], [{'x': 0}, 'SELF'],
+             [{'x': 0}, 'SKIP'], ['SELF'], [{'x': 0}, 'SELF', {'s': 'q'}]]
     else:
-      n, m = len(c['v']), len(c['v'][0])
+      m = sh[1]
       i, j = rng.randrange(n), rng.randrange(m)
-      tail = rng.choice([[{'x': i}, {'x': j}], [{'x': i}, {'x': -1}], [{'x': -1}, {'x': j}], [{'t': [i, j]}],
-                         [{'x': i}], [{'x': n}, {'x': 0}], [{'x': i}, {'x': m}]])
-    return pre + tail
+      ok = [[{'x': i}, {'x': j}], [{'x': i}, {'x': -1}], [{'x': -1}, {'x': j}], [{'x': i}], [{'i': i}, {'i': j}]]
+      odd = [[{'t': [i, j]}], [{'x': n}, {'x': 0}], [{'x': n}], [{'x': i}, {'x': m}], [{'x': i}, {'x': m + 1}], [{'x': i}, {'s': 'a'}],
+             [{'x': i}, {'x': j}, {'x': 0}], [{'x': i}, 'SELF'], [{'x': i}, 'SKIP'], [{'x': i}, {'x': j}, 'SELF'], [{'x': -n - 1}],
+             [{'x': i}, 'SKIP', {'x': 0}]]
+    tail = rng.choice(odd) if rng.random() < 0.3 else rng.choice(ok)
+    return pre + copy.deepcopy(tail)
+
+  def value():
+    r = rng.random()
+    if r < 0.45:
+      return rng.choice(ints)
+    if r < 0.70:
+      return rng.choice(avals)
+    if r < 0.85:
+      return rng.choice(lvals)
+    return rng.choice(other)
 
   ops = []
+  cur = root
   for _ in range(rng.randrange(1, 5)):
     pre, cell = rng.choice(arrs)
     p = into(pre, cell)
     k = rng.random()
-    v = rng.choice(vals) if rng.random() < 0.8 else rng.choice(other)
-    if k < 0.55:
-      ops.append({'op': 'set', 'root': root, 'keys': {'path': p}, 'value': v, 'in_place': False})
+    v = value()
+    tgt = cur if rng.random() < 0.5 else root
+    if k < 0.40:
+      ops.append({'op': 'set', 'root': tgt, 'keys': {'path': p}, 'value': v, 'in_place': False})
+      cur = {'res': len(ops) - 1}
+    elif k < 0.55:
+      # in place, on the input tree: values that cannot create a cycle (ints, arrays, flat lists of ints)
+      ops.append({'op': 'set', 'root': root, 'keys': {'path': p}, 'value': rng.choice(ints + avals + lvals[:4]), 'in_place': True})
     elif k < 0.65:
       pre2, cell2 = rng.choice(arrs)
-      ops.append({'op': 'update', 'root': root, 'pairs': [[p, v], [into(pre2, cell2), rng.choice(vals)]], 'asdict': False})
+      ops.append({'op': 'update', 'root': tgt, 'pairs': [[p, v], [into(pre2, cell2), rng.choice(ints)]], 'asdict': False})
+      cur = {'res': len(ops) - 1}
     elif k < 0.8:
-      ops.append({'op': rng.choice(['get', 'getd']), 'root': root, 'keys': {'path': p}})
-    elif k < 0.9:
+      ops.append({'op': rng.choice(['get', 'getd']), 'root': tgt, 'keys': {'path': p}})
+    elif k < 0.88:
       pre2, cell2 = rng.choice(arrs)
-      ops.append({'op': 'get', 'root': root, 'keys': {'multi': [p, into(pre2, cell2)]}})
+      ops.append({'op': 'get', 'root': tgt, 'keys': {'multi': [p, into(pre2, cell2)]}})
+    elif k < 0.94:
+      ops.append({'op': 'items', 'root': tgt})
     else:
-      ops.append({'op': 'items', 'root': root})
+      ops.append({'op': 'apply', 'root': tgt, 'fn': rng.choice(['inc', 'wrap', 'id', 'const'])})
   return {'strict': False, 'heap': g.cells, 'root': root, 'ops': ops}
 
 
